@@ -704,6 +704,13 @@ func (q *TransferQueue) enqueueAndCollectRetriesFor(batch batch) (batch, error) 
 					q.Skip(o.Size)
 					q.wait.Done()
 				}
+			} else if a == nil && q.direction == Download && !q.dryRun && manifest.standaloneTransferAgent == "" {
+				// Without a download action there is no way to get
+				// the object, and it is not there: that is not done.
+				tools.VerifTrace("tq.reply", o.Oid, "error")
+				q.errorc <- errors.Errorf("[%v] The server did not offer a download action for this object.", o.Oid)
+				q.Skip(o.Size)
+				q.wait.Done()
 			} else if a == nil && (manifest.standaloneTransferAgent == "" || q.dryRun) {
 				// No action: the server has no use for a transfer. A
 				// standalone transfer agent is not asked and gives no
